@@ -172,6 +172,31 @@ def evaluate(item):
                                          "input": {"statepoints": osps, "op": "diff_jobs"},
                                          "expected": repr(f), "observed": repr(rebuilt),
                                          "msg": "common part + diff does not rebuild the state point"})
+        # a short history in the session that created the jobs: remove one, re-key another, then ask for the schema of a
+        # subset that still names the old ids - only jobs that exist now may contribute
+        if len(sps) >= 2 and not viol:
+            p0 = jobs[0]._project
+            try:
+                jobs[-1].remove()
+                remaining = list(sps[:-1])
+                new_sp = dict(sps[0], rekeyed=1)
+                jobs[0].statepoint = new_sp
+                remaining[0] = new_sp
+                names = ids + [jobs[0].id]
+                for ex in (False, True):
+                    n += 1
+                    want = ref_schema(remaining, ex)
+                    got = norm_schema(p0.detect_schema(exclude_const=ex, subset=names))
+                    if got != want:
+                        viol.append({"sig": {"kind": "schema-uses-stale-session-data", "exclude_const": ex}, "scenario": "detect_schema/history",
+                                     "input": {"statepoints": sps, "op": "remove-last+rekey-first+detect_schema(subset=all ids ever)"},
+                                     "expected": _show(want), "observed": _show(got),
+                                     "msg": f"after remove / re-key in the same session detect_schema(subset=old and new ids, "
+                                            f"exclude_const={ex}) gives {_show(got)}, expected {_show(want)}"})
+            except Exception as e:  # noqa
+                viol.append({"sig": {"kind": "schema-raises", "exclude_const": None}, "scenario": "detect_schema/history",
+                             "input": {"statepoints": sps, "op": "history"}, "expected": "schema", "observed": repr(e),
+                             "msg": f"history raised {type(e).__name__}: {e}"})
     return {"cls": f"jobs{len(sps)}:{len(outcomes)}", "viol": viol, "n": n,
             "nt": [hash(o) for o in outcomes], "nt_many": True,
             "sample": {"statepoints": sps, "calls": n}}
